@@ -253,7 +253,10 @@ def main():
             rep.count("sat")
             if not r["reproduced"]:
                 rep.encoder_defect(f"model does not reproduce for {it['f']['meta']}: {r['which']} ({r['note']})"); continue
-            rep.violation("constants/unsound-constant", f"{it['f']['meta']}: {r['note']}; solver obligations {r['which'][:2]}",
+            sig = "constants/unsound-constant"
+            if not it["f"]["meta"].get("initialised"):
+                sig = "constants/unsound-constant in a function that reads scalars it has not assigned (live-in treated as bottom at joins)"
+            rep.violation(sig, f"{it['f']['meta']}: {r['note']}; solver obligations {r['which'][:2]}",
                           {"function": r["function"], "model": r["model"], "which": r["which"], "note": r["note"]})
     rep.extra["status_counts"] = counts
     rep.functions_encoded = ["analysis::constants::constants + Constants::scalar/eval (run concretely per function; table checked against all executions)"]
